@@ -142,13 +142,13 @@ inline std::vector<int> parse_sched(const std::string &s) {
   return v;
 }
 inline std::string trace_str(const vs_shared *shm, int maxp = 400) {
-  static const char *opn[] = {"?", "START", "LOCK", "JOIN", "YIELD", "EXIT", "CREATE", "TRYLOCK", "CONDWAIT", "IO", "FLOCK"};
+  static const char *opn[] = {"?", "START", "LOCK", "JOIN", "YIELD", "EXIT", "CREATE", "TRYLOCK", "CONDWAIT", "IO", "FLOCK", "UNLOCK"};
   std::string s;
   for (int i = 0; i < shm->npoints && i < maxp; i++) {
     const vs_point &p = shm->points[i];
     char b[96];
-    snprintf(b, sizeof b, "%st%d@%s(%d)->t%d:%s(%d)", i ? " " : "", p.running, opn[p.op <= 10 ? p.op : 0], p.obj, p.chosen,
-             opn[p.chosen_op <= 10 ? p.chosen_op : 0], p.chosen_obj);
+    snprintf(b, sizeof b, "%st%d@%s(%d)->t%d:%s(%d)", i ? " " : "", p.running, opn[p.op <= 11 ? p.op : 0], p.obj, p.chosen,
+             opn[p.chosen_op <= 11 ? p.chosen_op : 0], p.chosen_obj);
     s += b;
   }
   return s;
